@@ -587,8 +587,18 @@ Definition wiring_getter_phys (m : message) (w : wiring) (g : ngetter) (st : sta
   end.
 
 (** C10 part: declarations, Reset(), CopyFrom()/MarshalFrame() shapes (over the C03 part), setters, getters *)
+(** the struct field of a signal with value descriptions is declared with the enum TYPE NAME <Msg>_<Sig>; every other
+    field with the builtin type itself *)
+Fixpoint enum_fields_ok (m : message) (ss : list signal) (fs : list (name * name)) : bool :=
+  match ss, fs with
+  | s :: ss', (_, tn) :: fs' =>
+      (if has_custom_type s then name_eqb tn (enum_type_name m s)
+       else opt_eqb ctype_eqb (assoc tn builtin_types) (Some (CT (signal_prim_type s)))) && enum_fields_ok m ss' fs'
+  | _, _ => true
+  end.
 Definition wiring_ok_c10 (mi : nat) (m : message) (w : wiring) : bool :=
-  decls_ok mi m w && reset_wiring_ok m w && w_copy w && setters_wiring_ok m w && getters_wiring_ok m w.
+  decls_ok mi m w && reset_wiring_ok m w && w_copy w && setters_wiring_ok m w && getters_wiring_ok m w &&
+  enum_fields_ok m (msg_signals m) (w_fields w).
 
 (** ---- the whole generated package: one wiring per message type (in source order), the `nd` literal
     (<Node>: d.Nodes[ni]) and the dispatcher's cases *)
@@ -599,7 +609,22 @@ Record enum := {
   e_cases : list (rconst * name);          (* case <value>: return "<text>" *)
   e_default : name }.                      (* format string of fmt.Sprintf(<fmt>, v) *)
 
+(** generated node type xxx_<Node> (func Node of file.go), as read by harness/genwire *)
+Record nodegen := {
+  ng_name : name;                         (* <Node> of struct xxx_<Node> *)
+  ng_desc : name;                         (* Descriptor() returns Nodes().<ng_desc> *)
+  ng_rxfields : list (name * name);       (* struct xxx_<Node>_Rx: field, type (after parentMutex) *)
+  ng_txfields : list (name * name);
+  ng_rxtypes : list (name * name);        (* type xxx_<Node>_Rx_<Msg> struct { <Msg>; ... }: type, embedded message type *)
+  ng_txtypes : list (name * name);
+  ng_received : list (Z * name);          (* ReceivedMessage: case <id>: return &n.rx.<field>, true *)
+  ng_received_default : bool;             (* default: return nil, false *)
+  ng_transmitted : list name;             (* TransmittedMessages: &n.tx.<field> ... *)
+  ng_rxacc : list (name * name);          (* func (rx *xxx_<Node>_Rx) <Method>() ... { return &rx.<field> } *)
+  ng_txacc : list (name * name) }.
+
 Record package := {
+  p_nodegens : list nodegen;
   p_enums : list enum;
   p_wirings : list wiring;
   p_nodes : list (name * Z);
@@ -713,3 +738,53 @@ Definition enums_ok (db : database) (p : package) : bool :=
   forallb (fun m => forallb (signal_enum_ok (p_enums p) m) (msg_signals m)) (db_messages db) &&
   forallb (fun e => existsb (fun m => existsb (fun s => has_custom_type s && name_eqb (e_name e) (enum_type_name m s))
                                               (msg_signals m)) (db_messages db)) (p_enums p).
+
+(** ---- generated node types (C11) *)
+Definition rx_prefix : name := Eval compute in Ast.bytes_of_string "_Rx_"%string.
+Definition tx_prefix : name := Eval compute in Ast.bytes_of_string "_Tx_"%string.
+(** the message type an rx/tx field holds: field -> declared type -> embedded message type *)
+Definition held_message (fields types : list (name * name)) (f : name) : option name :=
+  match assoc f fields with Some t => assoc t types | None => None end.
+Definition resolved_received (ng : nodegen) : option (list (Z * name)) :=
+  resolve_all (fun c => match held_message (ng_rxfields ng) (ng_rxtypes ng) (snd c) with
+                        | Some mn => Some (fst c, mn) | None => None end) (ng_received ng).
+Definition resolved_transmitted (ng : nodegen) : option (list name) :=
+  resolve_all (held_message (ng_txfields ng) (ng_txtypes ng)) (ng_transmitted ng).
+Fixpoint first_case (l : list (Z * name)) (id : Z) : option name :=
+  match l with [] => None | (k, n) :: tl => if k =? id then Some n else first_case tl id end.
+(** ReceivedMessage(id): the message type of the rx instance returned ([Some None]: nil, false) *)
+Definition wiring_received (ng : nodegen) (id : Z) : option (option name) :=
+  if ng_received_default ng then
+    match resolved_received ng with Some l => Some (first_case l id) | None => None end
+  else None.
+(** TransmittedMessages(): the message types of the listed tx instances, in order *)
+Definition wiring_transmitted (ng : nodegen) : option (list name) := resolved_transmitted ng.
+
+Definition pair_eqb (a b : name * name) : bool := name_eqb (fst a) (fst b) && name_eqb (snd a) (snd b).
+Definition nodegen_ok (db : database) (n : node) (ng : nodegen) : bool :=
+  let nn := node_name n in
+  let rx := collect_rx db n in let tx := collect_tx db n in
+  let fld m := xxx_prefix ++ msg_name m in
+  let rxt m := xxx_prefix ++ nn ++ rx_prefix ++ msg_name m in
+  let txt m := xxx_prefix ++ nn ++ tx_prefix ++ msg_name m in
+  name_eqb (ng_name ng) nn && name_eqb (ng_desc ng) nn &&
+  list_eqb pair_eqb (ng_rxfields ng) (map (fun m => (fld m, rxt m)) rx) &&
+  list_eqb pair_eqb (ng_txfields ng) (map (fun m => (fld m, txt m)) tx) &&
+  list_eqb pair_eqb (ng_rxtypes ng) (map (fun m => (rxt m, msg_name m)) rx) &&
+  list_eqb pair_eqb (ng_txtypes ng) (map (fun m => (txt m, msg_name m)) tx) &&
+  list_eqb pair_eqb (ng_rxacc ng) (map (fun m => (msg_name m, fld m)) rx) &&
+  list_eqb pair_eqb (ng_txacc ng) (map (fun m => (msg_name m, fld m)) tx) &&
+  ng_received_default ng &&
+  opt_eqb (list_eqb (fun a b => (fst a =? fst b) && name_eqb (snd a) (snd b))) (resolved_received ng)
+          (Some (map (fun m => (msg_id m, msg_name m)) rx)) &&
+  opt_eqb (list_eqb name_eqb) (resolved_transmitted ng) (Some (map msg_name tx)).
+Fixpoint nodegens_ok (db : database) (ns : list node) (l : list nodegen) : bool :=
+  match ns, l with
+  | [], [] => true
+  | n :: ns', ng :: l' => nodegen_ok db n ng && nodegens_ok db ns' l'
+  | _, _ => false
+  end.
+(** node code exactly when some message has a send type (hasSendType), then one node type per node, in order *)
+Definition nodes_wiring_ok (db : database) (p : package) : bool :=
+  if has_send_type db then nodegens_ok db (db_nodes db) (p_nodegens p)
+  else match p_nodegens p with [] => true | _ => false end.
